@@ -1,5 +1,8 @@
 (** C01 for POINT_CLOUD_KD_TREE_ENCODING (and the kd-tree half of C12 / C10).
-    This file only restates theorems proved in Proofs/KdTree_proofs.v and prints their assumptions.
+    This file only restates theorems proved in Proofs/KdTree_proofs.v (tree coder) and Proofs/KdTreeCodec_proofs.v
+    (attribute layer, whole stream, skipped transforms) and prints their assumptions.
+      [kd_enc_pc] / [kd_dec_pc_stream]  Encoder with POINT_CLOUD_KD_TREE_ENCODING / Decoder::DecodePointCloudFromBuffer on a
+                                    kd-tree stream of bitstream 2.3 without metadata.
 
     The theorems are about the models of Model/KdTree.v:
       [kd_encode_points_with part]  DynamicIntegerPointsKdTreeEncoder<level>::EncodePoints as the recursion the explicit
@@ -10,7 +13,7 @@
     The bit coders are the C17 models; the only facts used about them are the C17 round-trip theorems. *)
 From Coq Require Import Permutation.
 From Draco Require Import Base.Codec Gen.Constants Model.Varint Model.BitCoders Model.SeqAttr Model.SeqCodec Model.KdTree
-  Proofs.FoldedCoder_proofs Proofs.C17_final_proofs Proofs.KdTree_proofs.
+  Model.Quantize Base.Float32 Proofs.FoldedCoder_proofs Proofs.C17_final_proofs Proofs.KdTree_proofs Proofs.KdTreeCodec_proofs.
 Local Open Scope Z_scope.
 
 (** The modelled std::partition (libstdc++ __partition for bidirectional iterators) meets the contract of
@@ -76,11 +79,94 @@ Print Assumptions C01_kd_order_depends_on_input_order_refuted.
 
 
 (** ** Attribute layer (KdTreeAttributesEncoder / Decoder) and whole streams.
-    The whole-stream encoder [kd_enc_pc] and decoder [kd_dec_pc_stream] are tied byte-exactly / value-exactly to the
-    library by ./check KD and searched (one permutation for all attributes); the general round-trip theorems
-    kd_attributes_roundtrip and kd_pc_roundtrips are NOT proved here.  Proved: the value-level step for signed
-    integers, and the two places where the round trip is false. *)
+    [kd_att_ok np a]: the input attribute is [np] rows of [num_components] bit patterns of its data type (and an explicit
+    quantization origin has one entry per component).  Everything else is what the encoder itself enforces: a supported data
+    type, quantization bits for floats, no signed component spanning 2^31 or more (fix e50b8ba) - all contained in
+    "the encoder returned Some".  [kd_streams_small]: the premise of the C17 theorems (each of the four bit sequences of
+    the tree shorter than 2^32 - 3 bits). *)
 
+(** kd_pc_roundtrips - the end-to-end statement for the kd-tree method.  The decoder accepts the encoder's stream followed
+    by anything, leaves exactly what followed, reports the same number of points and the same descriptors (type, data type,
+    components, normalized flag, unique id), and there is ONE list [J], a permutation of the point indices 0..np-1, such
+    that row x of EVERY decoded attribute is row J[x] of the expected attribute ([dec_of J]): the original bit patterns for
+    integer attributes, bits_of_f32 (kd_inverse_transform p (generate_portable p rows)) = deq(quant(x)) for float
+    attributes (C01_kd_decoded_rows_int / _float spell [dec_of] out). *)
+Theorem C01_kd_pc_roundtrips : forall speed np atts bs rest,
+  atts <> [] -> 0 <= np < 2 ^ 31 -> Z.of_nat (length atts) < 2 ^ 32 ->
+  Forall (kd_att_ok (Z.to_nat np)) atts -> kd_streams_small (@std_partition point) speed (Z.to_nat np) atts ->
+  kd_enc_pc speed np atts = Some bs ->
+  exists cols J, omap kd_portable atts = Some cols /\ Permutation (seq 0 (Z.to_nat np)) J /\
+    kd_dec_pc_stream (fun _ => false) (bs ++ rest) =
+      KOk ({| kp_npoints := np; kp_atts := map (dec_of J) atts; kp_points := [map (zrow cols) J] |}, rest).
+Proof. exact kd_pc_roundtrips_std. Qed.
+Print Assumptions C01_kd_pc_roundtrips.
+
+(** the same for every std::partition implementation meeting the contract *)
+Theorem C01_kd_pc_roundtrips_any_partition : forall part speed np atts bs rest,
+  part_ok part -> atts <> [] -> 0 <= np < 2 ^ 31 -> Z.of_nat (length atts) < 2 ^ 32 ->
+  Forall (kd_att_ok (Z.to_nat np)) atts -> kd_streams_small part speed (Z.to_nat np) atts ->
+  kd_enc_pc_with part speed np atts = Some bs ->
+  exists cols J, omap kd_portable atts = Some cols /\ Permutation (seq 0 (Z.to_nat np)) J /\
+    kd_dec_pc_stream (fun _ => false) (bs ++ rest) =
+      KOk ({| kp_npoints := np; kp_atts := map (dec_of J) atts; kp_points := [map (zrow cols) J] |}, rest).
+Proof. exact kd_pc_roundtrips. Qed.
+Print Assumptions C01_kd_pc_roundtrips_any_partition.
+
+(** kd_attributes_roundtrip: the attribute layer alone (KdTreeAttributesEncoder::EncodeAttributes /
+    KdTreeAttributesDecoder::DecodeAttributes), same conclusion, also giving the decoded integer point vector. *)
+Theorem C01_kd_attributes_roundtrip : forall part speed np atts body rest,
+  part_ok part -> atts <> [] -> Forall (kd_att_ok np) atts -> Z.of_nat np < 2 ^ 32 ->
+  kd_streams_small part speed np atts ->
+  kd_enc_attributes_with part speed np atts = Some body ->
+  exists cols J, omap kd_portable atts = Some cols /\ Permutation (seq 0 np) J /\
+    kd_dec_attributes (fun _ => false) 515 (Z.of_nat np) (map k_desc atts) (body ++ rest)
+      = KOk (map (dec_of J) atts, map (zrow cols) J, rest).
+Proof. exact kd_attributes_roundtrip. Qed.
+Print Assumptions C01_kd_attributes_roundtrip.
+
+Theorem C01_kd_decoded_rows_int : forall J a, (ad_dt (k_desc a) =? DT_FLOAT32_) = false ->
+  kda_desc (dec_of J a) = k_desc a /\ kda_rows (dec_of J a) = map (fun j => nth j (k_rows a) []) J.
+Proof. intros J a H. split; [reflexivity|apply dec_of_int; exact H]. Qed.
+Print Assumptions C01_kd_decoded_rows_int.
+Theorem C01_kd_decoded_rows_float : forall J a p words fr, (ad_dt (k_desc a) =? DT_FLOAT32_) = true ->
+  kd_quant_params a = Some p -> generate_portable p (map (map f32_of_bits) (k_rows a)) = Ok words ->
+  kd_inverse_transform p words = Ok fr ->
+  kda_desc (dec_of J a) = k_desc a /\ kda_rows (dec_of J a) = map (fun j => map bits_of_f32 (nth j fr [])) J.
+Proof. intros J a p words fr H1 H2 H3 H4. split; [reflexivity|eapply dec_of_float; eassumption]. Qed.
+Print Assumptions C01_kd_decoded_rows_float.
+
+(** Signed attributes with NO premise on the span: whatever signed column the encoder accepts (the guard of fix e50b8ba
+    passed) comes back bit-identical through the low-bytes cut and TransformAttributeBackToSignedType. *)
+Theorem C01_kd_signed_attribute_roundtrip : forall np a c, kd_att_ok np a -> kd_dt_signed (ad_dt (k_desc a)) = true ->
+  kd_portable a = Some c ->
+  forall j, (j < np)%nat ->
+    kmap2 (kd_back_signed (ad_dt (k_desc a))) (trunc_row (k_desc a) (nth j c [])) (kd_min_signed a) = KOk (nth j (k_rows a) []).
+Proof. exact kd_signed_attribute_roundtrip. Qed.
+Print Assumptions C01_kd_signed_attribute_roundtrip.
+
+(** a cloud without attributes *)
+Theorem C01_kd_pc_roundtrips_no_attributes : forall part speed np bs rest, 0 <= np < 2 ^ 31 ->
+  kd_enc_pc_with part speed np [] = Some bs ->
+  kd_dec_pc_stream (fun _ => false) (bs ++ rest) = KOk ({| kp_npoints := np; kp_atts := []; kp_points := [] |}, rest).
+Proof. exact kd_pc_roundtrips_no_attributes. Qed.
+Print Assumptions C01_kd_pc_roundtrips_no_attributes.
+
+(** ** C10 for the kd-tree decoder, on ARBITRARY byte strings (valid or hostile), any set of skipped attribute types.
+    A stream that decodes with transforms skipped also decodes normally, consuming the same bytes; the two results have
+    the same points and the same attributes except the skipped quantized ones, which are the uint32 portable values with
+    the quantization parameters [p] attached (same attribute type, components and unique id - fix 444a932) and whose
+    dequantization kd_inverse_transform p is exactly the float attribute of the normal decode. *)
+Theorem C10_kd_skip_decodes_normally : forall skip bs pcs rs, kd_dec_pc_stream skip bs = KOk (pcs, rs) ->
+  exists pc, kd_dec_pc_stream (fun _ => false) bs = KOk (pc, rs).
+Proof. exact kd_skip_decodes_normally. Qed.
+Print Assumptions C10_kd_skip_decodes_normally.
+Theorem C10_kd_skip_transform_consistent : forall skip bs pcs rs pc r,
+  kd_dec_pc_stream skip bs = KOk (pcs, rs) -> kd_dec_pc_stream (fun _ => false) bs = KOk (pc, r) ->
+  rs = r /\ kp_npoints pcs = kp_npoints pc /\ kp_points pcs = kp_points pc /\ Forall2 kd_skip_rel (kp_atts pcs) (kp_atts pc).
+Proof. exact kd_skip_consistent. Qed.
+Print Assumptions C10_kd_skip_transform_consistent.
+
+(** The two intermediate statements the end-to-end theorem is composed of (kept: they hold under weaker premises). *)
 
 (** kd_pc_roundtrips, framing part: on the encoder's stream followed by arbitrary bytes the decoder's header gates pass,
     num_points and the attribute descriptors come back, and the buffer then stands exactly at the attribute
@@ -101,11 +187,8 @@ Print Assumptions C01_kd_pc_framing_roundtrip_partial.
     gathered from ALL attributes (one row per point: the portable columns of every attribute side by side), then the
     quantization parameters and the signed minima; the decoder's tree stage returns a PERMUTATION OF WHOLE ROWS -
     one permutation for all attributes - and stands exactly at the parameter block.
-    Missing for the full kd_attributes_roundtrip / kd_pc_roundtrips: that the parameter block and the minima decode
-    back (C04's params_roundtrip and C17's signed varints applied along the attribute list) and that cutting the
-    rows back into attributes and undoing the transforms gives the original integers
-    (C01_kd_signed_value_roundtrip_partial per value) / kd_inverse_transform of the quantized floats; these steps
-    are tied and searched by ./check KD, not proved. *)
+    (The remaining steps - parameter block, minima, cutting the rows back into attributes, undoing the transforms - are
+    in C01_kd_attributes_roundtrip above.) *)
 Theorem C01_kd_attributes_points_roundtrip_partial : forall part speed np atts body rest cols,
   part_ok part -> omap kd_portable atts = Some cols ->
   let ncomp := fold_left (fun acc a => acc + ad_nc (k_desc a)) atts 0 in
@@ -124,9 +207,10 @@ Theorem C01_kd_attributes_points_roundtrip_partial : forall part speed np atts b
 Proof. exact kd_attributes_points_roundtrip. Qed.
 Print Assumptions C01_kd_attributes_points_roundtrip_partial.
 
-(** Signed attributes: (value - min) stored in the low bytes of the type, and min added back by
-    TransformAttributeBackToSignedType, is the identity on the bit pattern - PROVIDED the component's span
-    value - min is below 2^31 (premise forced by the decoder's [> INT32_MAX] rejection: D9). *)
+(** Signed attributes, one value: (value - min) stored in the low bytes of the type, and min added back by
+    TransformAttributeBackToSignedType, is the identity on the bit pattern when the span value - min is below 2^31
+    (the decoder rejects anything above INT32_MAX; C01_kd_signed_attribute_roundtrip derives the span bound from the
+    encoder's guard). *)
 Theorem C01_kd_signed_value_roundtrip_partial : forall dt bits m,
   kd_dt_signed dt = true -> 0 <= bits < 2 ^ (8 * dt_len dt) ->
   let v := kd_signed_value dt bits in
@@ -167,4 +251,26 @@ Proof.
   cbn zeta. split.
   - repeat constructor; cbn; lia.
   - intros level H. cbn [In] in H. repeat (destruct H as [<-|H]; [vm_compute; split; reflexivity|]). destruct H.
+Qed.
+
+Example C01_kd_example_cloud :
+  let a1 := {| k_desc := {| ad_type := ATT_COLOR_; ad_dt := DT_UINT8_; ad_nc := 2; ad_norm := true; ad_uid := 3 |};
+               k_q := -1; k_explicit := None; k_rows := [[7; 200]; [0; 1]; [7; 200]; [255; 3]] |} in
+  let a2 := {| k_desc := {| ad_type := ATT_GENERIC_; ad_dt := DT_INT16_; ad_nc := 1; ad_norm := false; ad_uid := 9 |};
+               k_q := -1; k_explicit := None; k_rows := [[65535]; [32768]; [65535]; [32767]] |} in   (* -1, -32768, -1, 32767 *)
+  Forall (kd_att_ok 4) [a1; a2] /\ kd_streams_small (@std_partition point) 3 4 [a1; a2] /\
+  match kd_enc_pc 3 4 [a1; a2] with
+  | Some bs => match kd_dec_pc_stream (fun _ => false) (bs ++ [5]) with
+               | KOk (pc, rest) => rest = [5] /\ map kda_rows (kp_atts pc) = [[[255; 3]; [7; 200]; [7; 200]; [0; 1]]; [[32767]; [65535]; [65535]; [32768]]]
+               | _ => False
+               end
+  | None => False
+  end.
+Proof.
+  cbn zeta. split.
+  - repeat constructor; cbn; try lia; vm_compute; congruence.
+  - split.
+    + intros cols o ord Hc. vm_compute in Hc. injection Hc as <-. intros pts H. vm_compute in H. injection H as <- <-.
+      vm_compute. repeat split; reflexivity.
+    + vm_compute. split; reflexivity.
 Qed.
